@@ -1185,9 +1185,10 @@ fn random_script(rng: &mut Rng, nfiles: usize, steps: usize) -> Vec<DOp> {
     script
 }
 
-/// The recorded witness of known finding `C13-enum-next-value-overflow` (Database layer):
-/// `next_value = value + 1` in `collect_enum_type` overflows for an enum value of `i64::MAX`; in the
-/// dev profile every query of the file, and every project-level query of every other file, panics.
+/// Regression case of finding `C13-enum-next-value-overflow` (fixed in /repo by 0bd32a4): before the
+/// fix `next_value = value + 1` in `collect_enum_type` overflowed for an enum value of `i64::MAX` and,
+/// in the dev profile, every query of the file and every project-level query of every other file
+/// panicked.  A panic here is a violation.
 fn enum_overflow_witness() -> Vec<DOp> {
     let e = "TYPE\n    E : (A := 9223372036854775807);\nEND_TYPE\n";
     let m = "PROGRAM Main\nVAR\n    x : INT;\nEND_VAR\nx := 1;\nEND_PROGRAM\n";
@@ -1922,7 +1923,7 @@ pub fn run(args: &Args) -> i32 {
         run_proj_case(args.cases, &mut rng, 0, &corpus, &mut out, Some(witness_script()));
         out.count("cases_witness");
     }
-    // … and the witness of the enum-value overflow (case number = `--cases` + 1)
+    // … and the regression case of the (fixed) enum-value overflow (case number = `--cases` + 1)
     if args.only.is_none() || args.only == Some(args.cases + 1) {
         let mut rng = Rng::for_case(args.seed, args.cases + 1);
         run_db_case(args.cases + 1, &mut rng, 0, &corpus, &mut out, false, Some(enum_overflow_witness()));
